@@ -13,6 +13,7 @@
 package main
 
 import (
+	"context"
 	"encoding/base64"
 	"fmt"
 	"math/rand"
@@ -303,43 +304,60 @@ func (e *env) directed(rng *rand.Rand) {
 		rq    vh.Req
 		codes []string
 		only  vh.StoreKind // -1 = all
+		sess  string       // the condition presupposes that this upload session of "r" is open
+	}
+	// the registry may evict a session at any moment once the per-repository bound is exceeded (eviction runs in
+	// goroutines of its own); whether the presupposed session is open is therefore read from the real state
+	sessOpen := func(id string) bool {
+		ids, _ := e.srv.VerifUploads(context.Background(), "r")
+		for _, x := range ids {
+			if x == id {
+				return true
+			}
+		}
+		return false
+	}
+	sessID := func(loc string) string {
+		p := strings.SplitN(loc, "?", 2)[0]
+		return p[strings.LastIndex(p, "/")+1:]
 	}
 	any := vh.StoreKind(-1)
 	cases := []dc{
-		{"unparsable-digest-blob", vh.Req{Method: "GET", URL: "/v2/r/blobs/sha256:zz"}, []string{"DIGEST_INVALID"}, any},
-		{"unknown-blob", vh.Req{Method: "GET", URL: "/v2/r/blobs/" + absentD}, []string{"BLOB_UNKNOWN"}, any},
-		{"unknown-tag", vh.Req{Method: "GET", URL: "/v2/r/manifests/nosuchtag", H: map[string]string{"Accept": vh.AcceptAll}}, []string{"MANIFEST_UNKNOWN", "NAME_UNKNOWN"}, any},
-		{"unknown-manifest-digest", vh.Req{Method: "GET", URL: "/v2/r/manifests/" + absentD, H: map[string]string{"Accept": vh.AcceptAll}}, []string{"MANIFEST_UNKNOWN", "NAME_UNKNOWN"}, any},
-		{"unknown-repository-manifest", vh.Req{Method: "GET", URL: "/v2/never/pushed/manifests/latest", H: map[string]string{"Accept": vh.AcceptAll}}, []string{"MANIFEST_UNKNOWN", "NAME_UNKNOWN"}, any},
-		{"reserved-name", vh.Req{Method: "GET", URL: "/v2/x/blobs/y/tags/list"}, []string{"NAME_INVALID"}, vh.Dir},
-		{"reserved-name-push", vh.Req{Method: "POST", URL: "/v2/index.json/blobs/uploads/"}, []string{"NAME_INVALID"}, vh.Dir},
-		{"unknown-session", vh.Req{Method: "PATCH", URL: "/v2/r/blobs/uploads/nosuchsession?state=" + b64(`{"offset":0}`), Body: []byte("x")}, []string{"BLOB_UPLOAD_UNKNOWN"}, any},
-		{"unknown-session-status", vh.Req{Method: "GET", URL: "/v2/r/blobs/uploads/nosuchsession"}, []string{"BLOB_UPLOAD_UNKNOWN"}, any},
-		{"monolithic-digest-mismatch", vh.Req{Method: "POST", URL: "/v2/r/blobs/uploads/?digest=" + absentD, Body: []byte("other bytes")}, []string{"DIGEST_INVALID", "BLOB_UPLOAD_INVALID"}, any},
-		{"manifest-not-json", vh.Req{Method: "PUT", URL: "/v2/r/manifests/bad", H: map[string]string{"Content-Type": vh.MTImage}, Body: []byte("{{{")}, []string{"MANIFEST_INVALID"}, any},
-		{"manifest-unsupported-type", vh.Req{Method: "PUT", URL: "/v2/r/manifests/bad", H: map[string]string{"Content-Type": "text/plain"}, Body: []byte("{}")}, []string{"MANIFEST_INVALID"}, any},
-		{"manifest-digest-mismatch", vh.Req{Method: "PUT", URL: "/v2/r/manifests/" + absentD, H: map[string]string{"Content-Type": vh.MTImage}, Body: u.Mans[0].Raw}, []string{"DIGEST_INVALID"}, any},
-		{"manifest-too-large", vh.Req{Method: "PUT", URL: "/v2/r/manifests/big", H: map[string]string{"Content-Type": vh.MTImage}, Body: []byte(`{"schemaVersion":2,"x":"` + strings.Repeat("y", 70000) + `"}`)}, []string{"MANIFEST_INVALID", "SIZE_INVALID"}, any},
-		{"unsupported-algorithm", vh.Req{Method: "POST", URL: "/v2/r/blobs/uploads/?digest-algorithm=md5"}, []string{"DIGEST_INVALID", "UNSUPPORTED"}, any},
+		{"unparsable-digest-blob", vh.Req{Method: "GET", URL: "/v2/r/blobs/sha256:zz"}, []string{"DIGEST_INVALID"}, any, ""},
+		{"unknown-blob", vh.Req{Method: "GET", URL: "/v2/r/blobs/" + absentD}, []string{"BLOB_UNKNOWN"}, any, ""},
+		{"unknown-tag", vh.Req{Method: "GET", URL: "/v2/r/manifests/nosuchtag", H: map[string]string{"Accept": vh.AcceptAll}}, []string{"MANIFEST_UNKNOWN", "NAME_UNKNOWN"}, any, ""},
+		{"unknown-manifest-digest", vh.Req{Method: "GET", URL: "/v2/r/manifests/" + absentD, H: map[string]string{"Accept": vh.AcceptAll}}, []string{"MANIFEST_UNKNOWN", "NAME_UNKNOWN"}, any, ""},
+		{"unknown-repository-manifest", vh.Req{Method: "GET", URL: "/v2/never/pushed/manifests/latest", H: map[string]string{"Accept": vh.AcceptAll}}, []string{"MANIFEST_UNKNOWN", "NAME_UNKNOWN"}, any, ""},
+		{"reserved-name", vh.Req{Method: "GET", URL: "/v2/x/blobs/y/tags/list"}, []string{"NAME_INVALID"}, vh.Dir, ""},
+		{"reserved-name-push", vh.Req{Method: "POST", URL: "/v2/index.json/blobs/uploads/"}, []string{"NAME_INVALID"}, vh.Dir, ""},
+		{"unknown-session", vh.Req{Method: "PATCH", URL: "/v2/r/blobs/uploads/nosuchsession?state=" + b64(`{"offset":0}`), Body: []byte("x")}, []string{"BLOB_UPLOAD_UNKNOWN"}, any, ""},
+		{"unknown-session-status", vh.Req{Method: "GET", URL: "/v2/r/blobs/uploads/nosuchsession"}, []string{"BLOB_UPLOAD_UNKNOWN"}, any, ""},
+		{"monolithic-digest-mismatch", vh.Req{Method: "POST", URL: "/v2/r/blobs/uploads/?digest=" + absentD, Body: []byte("other bytes")}, []string{"DIGEST_INVALID", "BLOB_UPLOAD_INVALID"}, any, ""},
+		{"manifest-not-json", vh.Req{Method: "PUT", URL: "/v2/r/manifests/bad", H: map[string]string{"Content-Type": vh.MTImage}, Body: []byte("{{{")}, []string{"MANIFEST_INVALID"}, any, ""},
+		{"manifest-unsupported-type", vh.Req{Method: "PUT", URL: "/v2/r/manifests/bad", H: map[string]string{"Content-Type": "text/plain"}, Body: []byte("{}")}, []string{"MANIFEST_INVALID"}, any, ""},
+		{"manifest-digest-mismatch", vh.Req{Method: "PUT", URL: "/v2/r/manifests/" + absentD, H: map[string]string{"Content-Type": vh.MTImage}, Body: u.Mans[0].Raw}, []string{"DIGEST_INVALID"}, any, ""},
+		{"manifest-too-large", vh.Req{Method: "PUT", URL: "/v2/r/manifests/big", H: map[string]string{"Content-Type": vh.MTImage}, Body: []byte(`{"schemaVersion":2,"x":"` + strings.Repeat("y", 70000) + `"}`)}, []string{"MANIFEST_INVALID", "SIZE_INVALID"}, any, ""},
+		{"unsupported-algorithm", vh.Req{Method: "POST", URL: "/v2/r/blobs/uploads/?digest-algorithm=md5"}, []string{"DIGEST_INVALID", "UNSUPPORTED"}, any, ""},
 	}
 	if unpushable != nil {
-		cases = append(cases, dc{"manifest-missing-references", vh.Req{Method: "PUT", URL: vh.ManifestURL("r", unpushable, "miss"), H: map[string]string{"Content-Type": unpushable.MT}, Body: unpushable.Raw}, []string{"MANIFEST_BLOB_UNKNOWN"}, any})
+		cases = append(cases, dc{"manifest-missing-references", vh.Req{Method: "PUT", URL: vh.ManifestURL("r", unpushable, "miss"), H: map[string]string{"Content-Type": unpushable.MT}, Body: unpushable.Raw}, []string{"MANIFEST_BLOB_UNKNOWN"}, any, ""})
 	}
 	if ns := vh.Do(e.srv, vh.Req{Method: "POST", URL: "/v2/r/blobs/uploads/"}); ns.Status == 202 && ns.H.Get("Location") != "" {
 		// a fresh session, so that the condition really is "bad state / bad range on an existing session"
 		l := ns.H.Get("Location")
 		p := l[:strings.Index(l, "?")]
+		sid := sessID(l)
 		cases = append(cases,
-			dc{"bad-state", vh.Req{Method: "PATCH", URL: p + "?state=!!!", Body: []byte("x")}, []string{"BLOB_UPLOAD_INVALID"}, any},
-			dc{"future-state", vh.Req{Method: "PATCH", URL: p + "?state=" + b64(`{"offset":987654}`), Body: []byte("x")}, []string{"BLOB_UPLOAD_INVALID"}, any},
-			dc{"bad-range", vh.Req{Method: "PATCH", URL: l, H: map[string]string{"Content-Range": "987654-987660"}, Body: []byte("x")}, []string{"SIZE_INVALID", "BLOB_UPLOAD_INVALID"}, any},
-			dc{"malformed-range", vh.Req{Method: "PATCH", URL: l, H: map[string]string{"Content-Range": "abc"}, Body: []byte("x")}, []string{"SIZE_INVALID", "BLOB_UPLOAD_INVALID"}, any},
-			dc{"put-missing-digest", vh.Req{Method: "PUT", URL: l}, []string{"DIGEST_INVALID"}, any},
+			dc{"bad-state", vh.Req{Method: "PATCH", URL: p + "?state=!!!", Body: []byte("x")}, []string{"BLOB_UPLOAD_INVALID"}, any, sid},
+			dc{"future-state", vh.Req{Method: "PATCH", URL: p + "?state=" + b64(`{"offset":987654}`), Body: []byte("x")}, []string{"BLOB_UPLOAD_INVALID"}, any, sid},
+			dc{"bad-range", vh.Req{Method: "PATCH", URL: l, H: map[string]string{"Content-Range": "987654-987660"}, Body: []byte("x")}, []string{"SIZE_INVALID", "BLOB_UPLOAD_INVALID"}, any, sid},
+			dc{"malformed-range", vh.Req{Method: "PATCH", URL: l, H: map[string]string{"Content-Range": "abc"}, Body: []byte("x")}, []string{"SIZE_INVALID", "BLOB_UPLOAD_INVALID"}, any, sid},
+			dc{"put-missing-digest", vh.Req{Method: "PUT", URL: l}, []string{"DIGEST_INVALID"}, any, sid},
 		)
 	}
 	if presentBlob != "" {
 		// an unsatisfiable byte range on existing content is a client mistake too
-		cases = append(cases, dc{"unsatisfiable-range", vh.Req{Method: "GET", URL: "/v2/r/blobs/" + presentBlob, H: map[string]string{"Range": "bytes=99999999-"}}, []string{"SIZE_INVALID", "BLOB_UNKNOWN", "UNSUPPORTED"}, any})
+		cases = append(cases, dc{"unsatisfiable-range", vh.Req{Method: "GET", URL: "/v2/r/blobs/" + presentBlob, H: map[string]string{"Range": "bytes=99999999-"}}, []string{"SIZE_INVALID", "BLOB_UNKNOWN", "UNSUPPORTED"}, any, ""})
 	}
 	// a mount whose source name is outside the grammar must not reach storage: it cannot be answered "mounted" (201)
 	{
@@ -362,7 +380,7 @@ func (e *env) directed(rng *rand.Rand) {
 	// a session that remembers a digest (mount fall-back) completed under another, correct digest: a client matter
 	if ms := vh.Do(e.srv, vh.Req{Method: "POST", URL: "/v2/r/blobs/uploads/?mount=" + absentD + "&from=other"}); ms.Status == 202 && ms.H.Get("Location") != "" {
 		body := []byte(fmt.Sprintf("other content %d", e.idx))
-		cases = append(cases, dc{"mount-fallback-other-digest", vh.Req{Method: "PUT", URL: ms.H.Get("Location") + "&digest=" + vh.DigestOf("sha256", body), Body: body}, []string{"BLOB_UPLOAD_INVALID", "DIGEST_INVALID"}, any})
+		cases = append(cases, dc{"mount-fallback-other-digest", vh.Req{Method: "PUT", URL: ms.H.Get("Location") + "&digest=" + vh.DigestOf("sha256", body), Body: body}, []string{"BLOB_UPLOAD_INVALID", "DIGEST_INVALID"}, any, sessID(ms.H.Get("Location"))})
 	}
 	// a tag that points to an index whose content was removed through the blob API, read with an Accept list that
 	// needs negotiation: still a client-visible "not found", never a server error
@@ -370,7 +388,7 @@ func (e *env) directed(rng *rand.Rand) {
 		if mm.Index && mm.Subject == "" && m.ValidRefs(mm) {
 			if rs, _ := e.w.PutManifest("r", mm, "negot"); rs.Status == 201 {
 				e.w.DeleteBlob("r", mm.D, mm.Name)
-				cases = append(cases, dc{"tag-to-removed-index-negotiation", vh.Req{Method: "GET", URL: "/v2/r/manifests/negot", H: map[string]string{"Accept": vh.MTImage}}, []string{"MANIFEST_UNKNOWN", "MANIFEST_BLOB_UNKNOWN", "BLOB_UNKNOWN"}, any})
+				cases = append(cases, dc{"tag-to-removed-index-negotiation", vh.Req{Method: "GET", URL: "/v2/r/manifests/negot", H: map[string]string{"Accept": vh.MTImage}}, []string{"MANIFEST_UNKNOWN", "MANIFEST_BLOB_UNKNOWN", "BLOB_UNKNOWN"}, any, ""})
 				defer e.w.DeleteTag("r", "negot")
 			}
 			break
@@ -380,10 +398,22 @@ func (e *env) directed(rng *rand.Rand) {
 		if c.only != any && c.only != e.kind {
 			continue
 		}
+		codesWanted := c.codes
+		openBefore := c.sess == "" || sessOpen(c.sess)
+		if !openBefore {
+			// the session was evicted before the probe: the condition now is "unknown session"
+			codesWanted = []string{"BLOB_UPLOAD_UNKNOWN"}
+			e.r.Count("directed_session_evicted_before_probe", 1)
+		}
 		rs := vh.Do(e.srv, c.rq)
 		e.observe(c.rq, rs, "", "directed:"+c.name)
 		e.r.Count("directed_conditions", 1)
 		e.r.Distinct("directed_classes", c.name)
+		if openBefore && c.sess != "" && !sessOpen(c.sess) {
+			// evicted (or ended by the refusal itself) around the probe: either code family is right
+			codesWanted = append(append([]string{}, c.codes...), "BLOB_UPLOAD_UNKNOWN")
+			e.r.Count("directed_session_gone_after_probe", 1)
+		}
 		if rs.Status < 400 || rs.Status >= 500 {
 			if rs.Status < 400 && c.name != "unsatisfiable-range" { // (an empty blob has no unsatisfiable range)
 				e.viol("condition-not-refused:"+c.name, fmt.Sprintf("condition %s answered %d", c.name, rs.Status), c.rq, rs)
@@ -399,13 +429,13 @@ func (e *env) directed(rng *rand.Rand) {
 		}
 		for _, got := range codes {
 			okc := false
-			for _, a := range c.codes {
+			for _, a := range codesWanted {
 				if a == got {
 					okc = true
 				}
 			}
 			if !okc && vh.RegisteredCode(got) {
-				e.viol("wrong-code:"+c.name, fmt.Sprintf("condition %s is answered with code %s, registered code for it: %s", c.name, got, strings.Join(c.codes, " or ")), c.rq, rs)
+				e.viol("wrong-code:"+c.name, fmt.Sprintf("condition %s is answered with code %s, registered code for it: %s", c.name, got, strings.Join(codesWanted, " or ")), c.rq, rs)
 			}
 		}
 	}
